@@ -39,15 +39,23 @@ package core
 //@   loop 1 invariant fresh(qi.CalculateInfo.Used) && fresh(qi.CalculateInfo.NonPreemptibleUsed) && qi.CalculateInfo.Used != qi.CalculateInfo.NonPreemptibleUsed
 //@   loop 1 invariant sumOrZero(qi.CalculateInfo.Used, old(qi.CalculateInfo.Used), delta) && sameDom(qi.CalculateInfo.Used, old(qi.CalculateInfo.Used), delta)
 //@   loop 1 invariant forall j int :: {$range[j]} 0 <= j && j < $i ==> val(qi.CalculateInfo.Used, $range[j]) == 0
+//@   loop 1 invariant #ahead: forall n v1.ResourceName :: {val(qi.CalculateInfo.Used, n)} val(qi.CalculateInfo.Used, n) < 0 ==> (exists j int :: {$range[j]} $i <= j && j < len($range) && $range[j] == n)
 //@   loop 2 invariant fresh(qi.CalculateInfo.NonPreemptibleUsed)
 //@   loop 2 invariant sumOrZero(qi.CalculateInfo.NonPreemptibleUsed, old(qi.CalculateInfo.NonPreemptibleUsed), deltaNonPreemptibleUsed) && sameDom(qi.CalculateInfo.NonPreemptibleUsed, old(qi.CalculateInfo.NonPreemptibleUsed), deltaNonPreemptibleUsed)
 //@   loop 2 invariant forall j int :: {$range[j]} 0 <= j && j < $i ==> val(qi.CalculateInfo.NonPreemptibleUsed, $range[j]) == 0
+//@   loop 2 invariant #ahead: forall n v1.ResourceName :: {val(qi.CalculateInfo.NonPreemptibleUsed, n)} val(qi.CalculateInfo.NonPreemptibleUsed, n) < 0 ==> (exists j int :: {$range[j]} $i <= j && j < len($range) && $range[j] == n)
 //@   loop 3 invariant fresh(qi.CalculateInfo.SelfUsed)
+//@   loop 3 invariant #kept: clampedSum(qi.CalculateInfo.Used, old(qi.CalculateInfo.Used), delta) && clampedSum(qi.CalculateInfo.NonPreemptibleUsed, old(qi.CalculateInfo.NonPreemptibleUsed), deltaNonPreemptibleUsed)
+//@   loop 3 invariant #apart: qi.CalculateInfo.SelfUsed != qi.CalculateInfo.Used && qi.CalculateInfo.SelfUsed != qi.CalculateInfo.NonPreemptibleUsed
 //@   loop 3 invariant sumOrZero(qi.CalculateInfo.SelfUsed, old(qi.CalculateInfo.SelfUsed), delta) && sameDom(qi.CalculateInfo.SelfUsed, old(qi.CalculateInfo.SelfUsed), delta)
 //@   loop 3 invariant forall j int :: {$range[j]} 0 <= j && j < $i ==> val(qi.CalculateInfo.SelfUsed, $range[j]) == 0
+//@   loop 3 invariant #ahead: forall n v1.ResourceName :: {val(qi.CalculateInfo.SelfUsed, n)} val(qi.CalculateInfo.SelfUsed, n) < 0 ==> (exists j int :: {$range[j]} $i <= j && j < len($range) && $range[j] == n)
 //@   loop 4 invariant fresh(qi.CalculateInfo.SelfNonPreemptibleUsed)
+//@   loop 4 invariant #kept: clampedSum(qi.CalculateInfo.Used, old(qi.CalculateInfo.Used), delta) && clampedSum(qi.CalculateInfo.NonPreemptibleUsed, old(qi.CalculateInfo.NonPreemptibleUsed), deltaNonPreemptibleUsed) && clampedSum(qi.CalculateInfo.SelfUsed, old(qi.CalculateInfo.SelfUsed), delta)
+//@   loop 4 invariant #apart: qi.CalculateInfo.SelfNonPreemptibleUsed != qi.CalculateInfo.Used && qi.CalculateInfo.SelfNonPreemptibleUsed != qi.CalculateInfo.NonPreemptibleUsed && qi.CalculateInfo.SelfNonPreemptibleUsed != qi.CalculateInfo.SelfUsed
 //@   loop 4 invariant sumOrZero(qi.CalculateInfo.SelfNonPreemptibleUsed, old(qi.CalculateInfo.SelfNonPreemptibleUsed), deltaNonPreemptibleUsed) && sameDom(qi.CalculateInfo.SelfNonPreemptibleUsed, old(qi.CalculateInfo.SelfNonPreemptibleUsed), deltaNonPreemptibleUsed)
 //@   loop 4 invariant forall j int :: {$range[j]} 0 <= j && j < $i ==> val(qi.CalculateInfo.SelfNonPreemptibleUsed, $range[j]) == 0
+//@   loop 4 invariant #ahead: forall n v1.ResourceName :: {val(qi.CalculateInfo.SelfNonPreemptibleUsed, n)} val(qi.CalculateInfo.SelfNonPreemptibleUsed, n) < 0 ==> (exists j int :: {$range[j]} $i <= j && j < len($range) && $range[j] == n)
 
 //@ func (*QuotaInfo).addRequestNonNegativeNoLock [C01]
 //@   requires qi != nil
@@ -61,15 +69,23 @@ package core
 //@   loop 1 invariant fresh(qi.CalculateInfo.Request)
 //@   loop 1 invariant sumOrZero(qi.CalculateInfo.Request, old(qi.CalculateInfo.Request), delta) && sameDom(qi.CalculateInfo.Request, old(qi.CalculateInfo.Request), delta)
 //@   loop 1 invariant forall j int :: {$range[j]} 0 <= j && j < $i ==> val(qi.CalculateInfo.Request, $range[j]) == 0
+//@   loop 1 invariant #ahead: forall n v1.ResourceName :: {val(qi.CalculateInfo.Request, n)} val(qi.CalculateInfo.Request, n) < 0 ==> (exists j int :: {$range[j]} $i <= j && j < len($range) && $range[j] == n)
 //@   loop 2 invariant fresh(qi.CalculateInfo.NonPreemptibleRequest)
 //@   loop 2 invariant sumOrZero(qi.CalculateInfo.NonPreemptibleRequest, old(qi.CalculateInfo.NonPreemptibleRequest), deltaNonPreemptibleRequest) && sameDom(qi.CalculateInfo.NonPreemptibleRequest, old(qi.CalculateInfo.NonPreemptibleRequest), deltaNonPreemptibleRequest)
 //@   loop 2 invariant forall j int :: {$range[j]} 0 <= j && j < $i ==> val(qi.CalculateInfo.NonPreemptibleRequest, $range[j]) == 0
+//@   loop 2 invariant #ahead: forall n v1.ResourceName :: {val(qi.CalculateInfo.NonPreemptibleRequest, n)} val(qi.CalculateInfo.NonPreemptibleRequest, n) < 0 ==> (exists j int :: {$range[j]} $i <= j && j < len($range) && $range[j] == n)
 //@   loop 3 invariant fresh(qi.CalculateInfo.SelfRequest)
+//@   loop 3 invariant #kept: clampedSum(qi.CalculateInfo.Request, old(qi.CalculateInfo.Request), delta) && clampedSum(qi.CalculateInfo.NonPreemptibleRequest, old(qi.CalculateInfo.NonPreemptibleRequest), deltaNonPreemptibleRequest)
+//@   loop 3 invariant #apart: qi.CalculateInfo.SelfRequest != qi.CalculateInfo.Request && qi.CalculateInfo.SelfRequest != qi.CalculateInfo.NonPreemptibleRequest
 //@   loop 3 invariant sumOrZero(qi.CalculateInfo.SelfRequest, old(qi.CalculateInfo.SelfRequest), delta) && sameDom(qi.CalculateInfo.SelfRequest, old(qi.CalculateInfo.SelfRequest), delta)
 //@   loop 3 invariant forall j int :: {$range[j]} 0 <= j && j < $i ==> val(qi.CalculateInfo.SelfRequest, $range[j]) == 0
+//@   loop 3 invariant #ahead: forall n v1.ResourceName :: {val(qi.CalculateInfo.SelfRequest, n)} val(qi.CalculateInfo.SelfRequest, n) < 0 ==> (exists j int :: {$range[j]} $i <= j && j < len($range) && $range[j] == n)
 //@   loop 4 invariant fresh(qi.CalculateInfo.SelfNonPreemptibleRequest)
+//@   loop 4 invariant #kept: clampedSum(qi.CalculateInfo.Request, old(qi.CalculateInfo.Request), delta) && clampedSum(qi.CalculateInfo.NonPreemptibleRequest, old(qi.CalculateInfo.NonPreemptibleRequest), deltaNonPreemptibleRequest) && clampedSum(qi.CalculateInfo.SelfRequest, old(qi.CalculateInfo.SelfRequest), delta)
+//@   loop 4 invariant #apart: qi.CalculateInfo.SelfNonPreemptibleRequest != qi.CalculateInfo.Request && qi.CalculateInfo.SelfNonPreemptibleRequest != qi.CalculateInfo.NonPreemptibleRequest && qi.CalculateInfo.SelfNonPreemptibleRequest != qi.CalculateInfo.SelfRequest
 //@   loop 4 invariant sumOrZero(qi.CalculateInfo.SelfNonPreemptibleRequest, old(qi.CalculateInfo.SelfNonPreemptibleRequest), deltaNonPreemptibleRequest) && sameDom(qi.CalculateInfo.SelfNonPreemptibleRequest, old(qi.CalculateInfo.SelfNonPreemptibleRequest), deltaNonPreemptibleRequest)
 //@   loop 4 invariant forall j int :: {$range[j]} 0 <= j && j < $i ==> val(qi.CalculateInfo.SelfNonPreemptibleRequest, $range[j]) == 0
+//@   loop 4 invariant #ahead: forall n v1.ResourceName :: {val(qi.CalculateInfo.SelfNonPreemptibleRequest, n)} val(qi.CalculateInfo.SelfNonPreemptibleRequest, n) < 0 ==> (exists j int :: {$range[j]} $i <= j && j < len($range) && $range[j] == n)
 
 //@ func (*QuotaInfo).getLimitRequestNoLock [C01,C03]
 //@   requires qi != nil
